@@ -5,6 +5,7 @@
 //!        harness exec            (reads input lines on stdin, re-executes them)
 
 mod c12;
+mod c14;
 mod c15;
 mod c17;
 mod c18;
@@ -28,6 +29,7 @@ pub fn exec_line(line: &str, out: &mut Out) {
         "c15dec" | "c15rt" => c15::exec(line, out),
         "c12cmp" | "c12ch" | "c12smt" => c12::exec(line, out),
         "c17" => c17::exec(line, out),
+        "c14pair" | "c14hs" => c14::exec(line, out),
         "c18" => c18::exec(line, out),
         _ => {
             writeln!(out, "# unknown input line: {line}").unwrap();
@@ -73,6 +75,7 @@ fn main() {
                 "c15" => c15::generate(&opts, &mut out),
                 "c12" => c12::generate(&opts, &mut out),
                 "c17" => c17::generate(&opts, &mut out),
+                "c14" => c14::generate(&opts, &mut out),
                 "c18" => c18::generate(&opts, &mut out),
                 other => {
                     eprintln!("unknown profile {other}");
